@@ -14,6 +14,7 @@
     [(down_weights != 0).any()] branch).  Divisions by the other thicknesses
     occur identically on both sides of every statement. *)
 From Dino Require Import Base.Ops Base.Sums Base.Inst Base.Ord Model.Sigma Thm.Sigma Model.Implicit Thm.Implicit.
+From Dino Require Import Model.Filters Gen.ImplicitSrc Thm.ImplicitSrc.
 From Coq Require Import Reals Qcanon Lra.
 Local Open Scope F_scope.
 
@@ -226,6 +227,37 @@ Proof.
   - intro H. vm_compute in H. discriminate H.
 Qed.
 
+(** ** Tie to the source by translation (regenerated on every run).
+    The vertical operators the theorems above are about ARE the numpy
+    constructions of dinosaur/primitive_equations.py: [*_src] are transcribed
+    from the AST by tools/translate/gen_implicit.py (get_sigma_ratios,
+    get_geopotential_weights, get_temperature_implicit_weights statement by
+    statement, and the weight vectors of the two 'sparse' methods). *)
+Theorem C03_model_is_source {F : Type} {o : Ops F} {Fc : FieldC o} (c : @PEcfg F) (r s : nat) :
+  (r < cK c)%nat -> (s < cK c)%nat ->
+  alpha (cK c) (cls c) r = alpha_src c r /\
+  geo_weights (cK c) (cR c) (cls c) r s = geo_weights_src c r s /\
+  temp_weights c r s = temp_weights_src c r s /\
+  neg_temp_weights c r r = diag_weights_src c r /\
+  up_weights c r = up_weights_src c r /\
+  down_weights c r = down_weights_src c r /\
+  fmul (cR c) (alpha (cK c) (cls c) r) = geo_alpha_src c r /\
+  (if Nat.eqb r 0 then f0 else fadd (fmul (cR c) (alpha (cK c) (cls c) r)) (fmul (cR c) (alpha (cK c) (cls c) (r - 1)%nat)))
+    = geo_alpha2_src c r.
+Proof.
+  intros Hr Hs.
+  split; [now apply alpha_matches_source|].
+  split; [now apply geo_weights_matches_source|].
+  split; [now apply temp_weights_matches_source|].
+  split; [now apply (sparse_weights_match_source c r)|].
+  split; [now apply (sparse_weights_match_source c r)|].
+  split; [now apply (sparse_weights_match_source c r)|].
+  split; now apply (geo_sparse_weights_match_source c r).
+Qed.
+
+Theorem C03_gen_implicit_complete : gen_implicit_ok = true.
+Proof. exact gen_implicit_complete. Qed.
+
 Print Assumptions C03_matrix_is_I_minus_eta_L.
 Print Assumptions C03_L_linear.
 Print Assumptions C03_split_eq_stacked.
@@ -247,3 +279,5 @@ Print Assumptions C03_sw_side_condition.
 Print Assumptions C03_sw_resolvent_R.
 Print Assumptions C03_resolvent_R.
 Print Assumptions C03_hyps_satisfiable.
+Print Assumptions C03_model_is_source.
+Print Assumptions C03_gen_implicit_complete.
